@@ -578,6 +578,28 @@ func (w *World) backSlice(v ssa.Value, opt flowOpt) map[ssa.Value]bool {
 			for _, e := range x.Edges {
 				visit(e)
 			}
+			// short-circuit && / ||: a boolean phi also depends on the conditions its
+			// predecessors branch on
+			if b, ok := x.Type().Underlying().(*types.Basic); ok && b.Kind() == types.Bool {
+				for _, p := range x.Block().Preds {
+					if len(p.Instrs) > 0 {
+						if br, ok := p.Instrs[len(p.Instrs)-1].(*ssa.If); ok {
+							visit(br.Cond)
+						}
+					}
+				}
+			}
+		case *ssa.MakeSlice:
+			// contents copied into the fresh slice
+			if x.Referrers() != nil {
+				for _, u := range *x.Referrers() {
+					if c, ok := u.(*ssa.Call); ok {
+						if b, ok := c.Call.Value.(*ssa.Builtin); ok && b.Name() == "copy" && c.Call.Args[0] == ssa.Value(x) {
+							visit(c.Call.Args[1])
+						}
+					}
+				}
+			}
 		case *ssa.ChangeType:
 			visit(x.X)
 		case *ssa.Convert:
@@ -607,10 +629,39 @@ func (w *World) backSlice(v ssa.Value, opt flowOpt) map[ssa.Value]bool {
 		case *ssa.MakeClosure:
 			visit(x.Fn)
 		case *ssa.Alloc:
-			// pointer to a local: what is stored in it
+			// pointer to a local: what is stored in it, directly or through its fields / elements
 			for _, st := range storesTo(x) {
 				visit(st.Val)
 			}
+			var sub func(a ssa.Value, depth int)
+			sub = func(a ssa.Value, depth int) {
+				if a.Referrers() == nil || depth > 3 {
+					return
+				}
+				for _, u := range *a.Referrers() {
+					switch y := u.(type) {
+					case *ssa.FieldAddr:
+						if y.X == a {
+							for _, uu := range *y.Referrers() {
+								if st, ok := uu.(*ssa.Store); ok && st.Addr == ssa.Value(y) {
+									visit(st.Val)
+								}
+							}
+							sub(y, depth+1)
+						}
+					case *ssa.IndexAddr:
+						if y.X == a {
+							for _, uu := range *y.Referrers() {
+								if st, ok := uu.(*ssa.Store); ok && st.Addr == ssa.Value(y) {
+									visit(st.Val)
+								}
+							}
+							sub(y, depth+1)
+						}
+					}
+				}
+			}
+			sub(x, 0)
 		case *ssa.BinOp:
 			if opt.BinOps {
 				visit(x.X)
@@ -869,7 +920,17 @@ func pathOf(v ssa.Value) string {
 	case *ssa.Lookup:
 		return pathOf(x.X) + "[" + pathOf(x.Index) + "]"
 	case *ssa.Const:
+		if x.Value == nil {
+			return "nil"
+		}
 		return x.Value.String()
+	case *ssa.Alloc:
+		// a spilled parameter (captured by a closure): named after the parameter
+		if sts := storesTo(x); len(sts) == 1 {
+			if p, ok := sts[0].Val.(*ssa.Parameter); ok {
+				return p.Name()
+			}
+		}
 	case *ssa.ChangeType:
 		return pathOf(x.X)
 	case *ssa.MakeInterface:
